@@ -1231,7 +1231,7 @@ def c06_plumbing(model, rep):
                         ok = ast.unparse(key.args[0]) == tgt.elts[0].id and ast.unparse(val) == tgt.elts[1].id
                 elif "phase_conf" in it:
                     tgt = loop.target
-                    ok = isinstance(tgt, ast.Name) and ast.unparse(key.args[0]) == tgt.id and ast.unparse(val).endswith('["phase_conf"][%s]' % tgt.id)
+                    ok = isinstance(tgt, ast.Name) and ast.unparse(key.args[0]) == tgt.id and ast.unparse(val).replace("'", '"').endswith('["phase_conf"][%s]' % tgt.id)
     if not ok:
         rep.violation("R3", "system.System.%s" % r["SET_PHLK"], "%s:%d" % (rel, loop.lineno), "the per-node phase table is not the registry entry of the same component", "phase lookup map")
     rep.instance("R3", "system.System.%s name -> index map" % r["SET_PHLK"], "%s:%d" % (rel, loop.lineno), ok)
@@ -1906,7 +1906,7 @@ def phase_lookup_rule(model, rep, r, rule):
                         ok = ast.unparse(key.args[0]) == tgt.elts[0].id and ast.unparse(val) == tgt.elts[1].id
                 elif "phase_conf" in it:
                     tgt = loop.target
-                    ok = isinstance(tgt, ast.Name) and ast.unparse(key.args[0]) == tgt.id and ast.unparse(val).endswith('["phase_conf"][%s]' % tgt.id)
+                    ok = isinstance(tgt, ast.Name) and ast.unparse(key.args[0]) == tgt.id and ast.unparse(val).replace("'", '"').endswith('["phase_conf"][%s]' % tgt.id)
     # nothing in the loop may make the entry conditional on the component
     if any(isinstance(x, (ast.If, ast.IfExp)) for x in ast.walk(loop)):
         ok = False
